@@ -71,9 +71,11 @@ def gen_op(rng, w, first, hardlinks):
         if rng.random() < 0.35 and len(have) > 1:
             # exchange inode numbers; among files of equal size and time-stamp only while the recorded inodes are not usable
             # (with usable inodes the tool rightly takes inode + size + time-stamp as identity)
-            usable = w.inodes_usable(w.content(), d)
+            # ... and are certain not to become usable again before they are saved anew (recorded UUID empty: the next reported UUID is a change)
+            stc = w.content()
+            safe = not w.inodes_usable(stc, d) and (stc is None or all(m['uuid'] == b'' for m in stc['maps'] if m['name'] == d))
             pairs = [(x, y) for x in have for y in have if x < y and T[d]['files'][x][3] == 1 and T[d]['files'][y][3] == 1 and
-                     (not usable or T[d]['files'][x][:2] != T[d]['files'][y][:2])]
+                     (safe or T[d]['files'][x][:2] != T[d]['files'][y][:2])]
             same = [(x, y) for (x, y) in pairs if T[d]['files'][x][:2] == T[d]['files'][y][:2]]
             if pairs:
                 return ['inoswap', d] + list(rng.choice(same or pairs))
@@ -526,8 +528,13 @@ def scripted(chk, binary, shim, model, rng, tier):
                 swap = [['inoswap', 'd1', 'X', 'Y']] if t % 2 else [['inoswap', 'd1', 'Y', 'da/Z'], ['inoswap', 'd1', 'X', 'w']]
                 # the exchange among same-stamp files only when this step's commands cannot use the recorded inodes
                 H.w.fake_uuid = plan[t]
-                usable = H.w.inodes_usable(H.w.content(), 'd1')
-                ok = ok and H.step(([['inoswap', 'd1', 'X', 'w']] if usable else swap) + ([['create', 'd2', 'n%d' % t, 10]] if t == 2 else []), fixpoint=True)
+                stc = H.w.content()
+                usable = H.w.inodes_usable(stc, 'd1')
+                rec_empty = stc is None or all(m['uuid'] == b'' for m in stc['maps'] if m['name'] == 'd1')
+                # recorded UUID non-empty but not reported now: the recorded inodes come back into use when it is reported again, so the
+                # exchanged ones must be saved by this sync: something else changes too (a sync with nothing to do does not save)
+                force = [] if (usable or rec_empty) else [['create', 'd1', 'forcesave%d' % t, 5]]
+                ok = ok and H.step(([['inoswap', 'd1', 'X', 'w']] if usable else swap) + force + ([['create', 'd2', 'n%d' % t, 10]] if t == 2 else []), fixpoint=True)
             if ok and model:
                 c11_model.flush_drift(H)
         finally:
@@ -557,7 +564,9 @@ def scripted(chk, binary, shim, model, rng, tier):
                      [['create', 'd1', 'one', 1]]]                                                    # only one new one-byte file
             if cfg['order'] == 'alpha':
                 kinds.append([['hardlink', 'd1', 'a', 'zhard']])                                      # only a second name of an inode
-            H.rng.shuffle(kinds)
+            first3, rest = kinds[:3], kinds[3:]         # the removals and the rename need what the first three create
+            H.rng.shuffle(first3); H.rng.shuffle(rest)
+            kinds = first3 + rest
             for kops in kinds:
                 ok = ok and H.step(kops)
                 ok = ok and H.step([], fixpoint=True)
